@@ -310,4 +310,13 @@ def badarg_catalogue():
     cat.append(("move", ((1, 2, 3),), {}))
     cat.append(("move", ((1,),), {}))
     cat.append(("rotate", (), {}))
+    # one-shot iterables: legal vectors for move (consumed once), legal or not they must
+    # never leave a composite shape half transformed.  Callables build fresh arguments.
+    cat.append(("move", lambda: (iter((1, 2)),), {}))
+    cat.append(("move", lambda: ((c for c in (Fraction(1, 2), 3)),), {}))
+    cat.append(("move", lambda: (map(float, (1, 2)),), {}))
+    cat.append(("move", lambda: (iter((1,)),), {}))
+    cat.append(("move", lambda: (iter(("a", 2)),), {}))
+    cat.append(("scale", lambda: (2, iter((3,))), {}))
+    cat.append(("rotate", lambda: (iter((1,)),), {}))
     return cat
